@@ -653,6 +653,14 @@ func registerStd(reg func(string, externalFn)) {
 	})
 	reg("internal/stringslite.Clone", func(in *Interp, fr *frame, args []value) value { return args[0] })
 	reg("strings.Clone", func(in *Interp, fr *frame, args []value) value { return args[0] })
+	reg("strings.Contains", func(in *Interp, fr *frame, args []value) value {
+		a, aok := args[0].(string)
+		b, bok := args[1].(string)
+		if !aok || !bok {
+			panic(abortPath{"unsupported", "strings.Contains on symbolic strings"})
+		}
+		return strings.Contains(a, b)
+	})
 	reg("strings.ToLower", func(in *Interp, fr *frame, args []value) value {
 		return strings.ToLower(in.str(args[0]))
 	})
@@ -728,6 +736,28 @@ func registerStd(reg func(string, externalFn)) {
 	reg("math.Ceil", func(in *Interp, fr *frame, args []value) value { return math.Ceil(args[0].(float64)) })
 	reg("math.Round", func(in *Interp, fr *frame, args []value) value { return math.Round(args[0].(float64)) })
 
+	// regexp: only literal patterns (no metacharacters) are modelled; for those
+	// POSIX matching is substring containment
+	reg("regexp.CompilePOSIX", func(in *Interp, fr *frame, args []value) value {
+		pat := in.str(args[0])
+		if strings.ContainsAny(pat, `\.+*?()|[]{}^$`) {
+			panic(abortPath{"unsupported", "regexp with metacharacters: " + pat})
+		}
+		var cell value = structure{pat}
+		return tuple{&cell, iface{}}
+	})
+	reg("regexp.Compile", externals["regexp.CompilePOSIX"])
+	reg("(*regexp.Regexp).MatchString", func(in *Interp, fr *frame, args []value) value {
+		pat := (*args[0].(*value)).(structure)[0].(string)
+		s, ok := args[1].(string)
+		if !ok {
+			s = in.strApprox(args[1])
+			if strings.Contains(s, "?") {
+				panic(abortPath{"unsupported", "regexp match on a symbolic string"})
+			}
+		}
+		return strings.Contains(s, pat)
+	})
 	// terminal / stdin boundary
 	reg("golang.org/x/crypto/ssh/terminal.GetSize", func(in *Interp, fr *frame, args []value) value {
 		h := in.p.termHeight
